@@ -15,6 +15,7 @@ package syncer
 // Lean model) and checked against independent Go bookkeeping (monitor).
 
 import (
+	"hash/fnv"
 	"errors"
 	"fmt"
 	"io"
@@ -291,7 +292,32 @@ func (d *c05mem) dump() {
 			d.pinnedClosed = true
 		}
 	}
-	line := fmt.Sprintf("segs=%s rdb=%s total=%d aw=%d rw=%d", c05mSegs(mc.aofSegs), rdb, mc.totalSize, aw, rw)
+	// the bytes the OFFERED snapshot holds (all its segments, in order) — printed for the
+	// comparison with the model's ghost of the bytes RECEIVED (Model/StoreMemRecv.lean), and
+	// monitored against the harness' own account of what it fed and the writer took
+	recv := "-"
+	if mc.rdb != nil && mc.rdb.replayable {
+		var held []byte
+		for _, sg := range mc.rdb.segments {
+			sg.blob.mu.Lock()
+			held = append(held, sg.blob.data...)
+			sg.blob.mu.Unlock()
+		}
+		h := fnv.New64a()
+		h.Write(held)
+		recv = fmt.Sprintf("%d:%d:%d:%d", mc.rdb.left, mc.rdb.size, len(held), h.Sum64())
+		d.s.Count("mon_snapshot_held_checked")
+		if d.snapS == nil || string(held) != string(d.snapS.bytes) {
+			var want []byte
+			if d.snapS != nil {
+				want = d.snapS.bytes
+			}
+			defer func() {
+				d.s.Violate("snapshot-bytes-wrong", fmt.Sprintf("the offered snapshot (%d,%d) holds %x, received for it: %x", mc.rdb.left, mc.rdb.size, held, want), d.replay(nil))
+			}()
+		}
+	}
+	line := fmt.Sprintf("segs=%s rdb=%s total=%d aw=%d rw=%d recv=%s", c05mSegs(mc.aofSegs), rdb, mc.totalSize, aw, rw, recv)
 	mc.mux.RUnlock()
 	d.emit("mdump", line)
 }
@@ -443,9 +469,16 @@ func (d *c05mem) opRdbAppend(chunk []byte) {
 		d.emit("mrdba "+vfutil.Hex(chunk), fmt.Sprintf("blocked %d", n))
 		d.s.Count("rdb_append_blocked")
 		if n != 0 {
-			d.s.Violate("harness", "blocked append was expected to be a single piece", d.replay(nil))
+			// the writer took a prefix of the chunk (whole pieces) before it had to wait: those
+			// bytes are received, the rest waits in the writer
+			d.s.Count("rdb_append_blocked_after_prefix")
+			if n < 0 || n > int64(len(chunk)) {
+				d.s.Violate("harness", fmt.Sprintf("blocked append reports %d of %d bytes", n, len(chunk)), d.replay(nil))
+				n = 0
+			}
+			d.snapS.bytes = append(d.snapS.bytes, chunk[:n]...)
 		}
-		d.rdbBlocked = chunk
+		d.rdbBlocked = chunk[n:]
 		return
 	}
 	d.snapS.bytes = append(d.snapS.bytes, chunk...)
@@ -740,6 +773,16 @@ func (d *c05mem) liveReaders() []int {
 	return ids
 }
 
+// copyLoopRunning: some reader's copy goroutine exists (started, not closed by the harness)
+func (d *c05mem) copyLoopRunning() bool {
+	for _, vr := range d.readers {
+		if vr.started && !vr.closed {
+			return true
+		}
+	}
+	return false
+}
+
 func c05mSegLen(seg *memorySegment) int {
 	if seg == nil {
 		return 0
@@ -851,8 +894,16 @@ func (d *c05mem) step() bool {
 			if r.Chance(1, 3) {
 				n = rem
 			}
-			if lim := int64(d.pieceLimit(int(n), c05mSegLen(d.rdbW.(*MemoryRdbWriter).currentSegment()))); n > lim {
-				n = lim
+			// while no copy goroutine runs (every open reader is unstarted: it only pins its
+			// segment) nothing races with the writer between two pieces of one append: such
+			// appends are NOT limited to one piece, so that a snapshot append can block after
+			// it took a prefix of its chunk (`blocked n`, n > 0)
+			if d.copyLoopRunning() {
+				if lim := int64(d.pieceLimit(int(n), c05mSegLen(d.rdbW.(*MemoryRdbWriter).currentSegment()))); n > lim {
+					n = lim
+				}
+			} else {
+				d.s.Count("rdb_append_multi_piece_allowed")
 			}
 			d.opRdbAppend(r.Bytes(int(n)))
 			d.s.Count("op_rdb_append")
